@@ -29,7 +29,7 @@ def oracle_sequences(prog: Prog, goals, N, max_paths=20000, fns=None):
     return I, seqs
 
 
-def z3_of_sympy(expr, I, uf=False):
+def z3_of_sympy(expr, I, uf=True):
     t = Tr(sym=I.zv, uf=uf)
     re, im = t.tr(expr)
     return t, re, im
